@@ -9,7 +9,9 @@
 (* semaphore mutex of apbp_from_dsp held, so no host-thread semaphore call can be placed inside it), *)
 (* and must return exactly what the real call returned.  Steps of the real system that are not       *)
 (* logged (the handler's ICU trigger, the run loop's latch exchange, the end of SetSemaphore) are     *)
-(* silent steps.  An interrupt entry logged by the guest (Irq) needs a latched, routed trigger        *)
+(* silent steps.  The host callbacks are placed on the thread that logged them: the data callback    *)
+(* and the semaphore callback of the guest's 0x0CC write on the DSP thread, the semaphore callback    *)
+(* of Teakra::MaskSemaphore (fix bf7856c) on the host thread.  An interrupt entry logged by the guest (Irq) needs a latched, routed trigger        *)
 (* before it; at the end of a run (Quiesce) nothing may be left latched or requested, the last value *)
 (* sent on every channel must have been received, and every owed handler call must have been made.  *)
 (* A run with a Race (ThreadSanitizer report), Stuck (watchdog) or Fault event has no explanation.   *)
@@ -20,7 +22,7 @@ EXTENDS ApbpConc, Json, IOUtils
 Log == ndJsonDeserialize(IOEnv.TRACE)
 
 VARIABLE tr  \* [r: run (line) number, i: [thread -> next event], ip, ie: guest interrupt state]
-tvars == <<S, todo, ret, hp, dp, tr>>
+tvars == <<vS, vTodo, vRet, hp, dp, tr>>
 
 ARun == Log[tr.r]
 \* (a run for which one explanation has been found is not searched any further: TLCGet(1) = runs explained)
@@ -29,11 +31,12 @@ Explainable == tr.r <= Len(Log) /\ tr.r > TLCGet(1) /\ ARun.e = "Run" /\ Len(ARu
 \* host sequence but may only be placed once the DSP thread's sequence is used up
 HostEvs == ARun.h \o ARun.q
 EvList(t) == IF t = "h" THEN HostEvs ELSE ARun.d
-DspDone == tr.i["d"] > Len(ARun.d) /\ todo["d"] = <<>>
+DspDone == tr.i["d"] > Len(ARun.d) /\ vTodo["d"] = <<>>
 HasEv(t) == /\ tr.i[t] <= Len(EvList(t))
             /\ (t = "h" /\ tr.i[t] > Len(ARun.h)) => DspDone
 Ev(t) == EvList(t)[tr.i[t]]
 IsCb(e) == "cb" \in DOMAIN e
+HeadKind(t) == IF vTodo[t] = <<>> THEN "none" ELSE Head(vTodo[t]).k
 
 CbEnd == Op("CbEnd", "fd", 0, 0)
 \* a callback is over when the driver says so
@@ -44,18 +47,19 @@ Fix(fol) == LET F[i \in 0..Len(fol)] ==
 
 \* polls carry the logged answer in op.v
 Polls == {"ReadyCS", "SemSig", "GetDisCS"}
+Accept(t, op, rest, want, r) ==
+    /\ op.k \in Polls => r.ret = op.v
+    /\ want # -1 => r.ret = want
+    /\ vS' = r.S
+    /\ vRet' = [vRet EXCEPT ![t] = r.ret]
+    /\ vTodo' = [vTodo EXCEPT ![t] = Fix(r.fol) \o rest]
 Apply(t, op, rest, want) ==
-    /\ Enabled(S, t, op, ret[t])
-    /\ LET r == Do(S, t, op, ret[t]) IN
-         /\ op.k \in Polls => r.ret = op.v
-         /\ want # -1 => r.ret = want
-         /\ S' = r.S
-         /\ ret' = [ret EXCEPT ![t] = r.ret]
-         /\ todo' = [todo EXCEPT ![t] = Fix(r.fol) \o rest]
+    /\ Enabled(vS, t, op, vRet[t])
+    /\ Accept(t, op, rest, want, Do(vS, t, op, vRet[t]))
 Advance(t) == tr' = [tr EXCEPT !.i[t] = @ + 1]
 
 \* logged call -> micro-operations (the first one is the call's first critical section)
-OpsOf(t, e) ==
+OpsOf(e) ==
     CASE e.e = "Send"    -> <<Op("SendCS", "fc", e.c, e.v)>>
       [] e.e = "Empty"   -> <<Op("ReadyCS", "fc", e.c, 1 - e.r)>>
       [] e.e = "Ready"   -> <<Op("ReadyCS", "fd", e.c, e.r)>>
@@ -64,7 +68,7 @@ OpsOf(t, e) ==
       [] e.e = "SemSet"  -> <<Op("SemSetA", "fc", 0, e.v)>>
       [] e.e = "SemGet"  -> <<Op("SemGet", "fd", 0, 0)>>
       [] e.e = "SemClr"  -> <<Op("SemClr", "fd", 0, e.v)>>
-      [] e.e = "SemMask" -> <<Op("SemMask", "fd", 0, e.v)>>
+      [] e.e = "SemMask" -> <<Op("SemMaskA", "fd", 0, e.v)>>      \* may call the semaphore callback on this thread
       \* DSP side (guest program through the MMIO window, or the DSP thread between two Run slices)
       [] e.e = "Ack"     -> <<Op("Ack", "icu", 0, 0)>>
       [] e.e = "Stat"    -> <<Op("ReadyCS", "fd", 0, e.r[1]), Op("ReadyCS", "fd", 1, e.r[2]), Op("ReadyCS", "fd", 2, e.r[3]),
@@ -75,91 +79,88 @@ OpsOf(t, e) ==
       [] e.e = "GSemGet" -> <<Op("SemGet", "fc", 0, 0)>>
       [] e.e = "GSemClr" -> <<Op("SemClr", "fc", 0, e.v)>>
       [] e.e = "GSemSet" -> <<Op("SemSetA", "fd", 0, e.v)>>
-      [] e.e = "GSemMask" -> <<Op("SemMask", "fc", 0, e.v)>>
+      [] e.e = "GSemMask" -> <<Op("SemMaskA", "fc", 0, e.v)>>     \* may trigger the ICU on the DSP thread
       [] e.e = "SetDis"  -> <<Op("SetDis", "fc", 0, e.v[1]), Op("SetDis", "fc", 1, e.v[2]), Op("SetDis", "fc", 2, e.v[3])>>
       [] e.e = "GetDis"  -> <<Op("GetDisCS", "fc", 0, (e.r \div 256) % 2), Op("GetDisCS", "fc", 1, (e.r \div 4096) % 2),
                               Op("GetDisCS", "fc", 2, (e.r \div 8192) % 2)>>
       [] e.e = "SetVec"  -> <<Op("SetVec", "icu", 0, e.v)>>
       [] e.e = "GetReq"  -> <<Op("GetReq", "icu", 0, 0)>>
-Known == {"Send", "Empty", "Ready", "Recv", "Peek", "SemSet", "SemGet", "SemClr", "SemMask", "Ack", "Stat", "GRecv",
-          "GSend", "GSemGet", "GSemClr", "GSemSet", "GSemMask", "SetDis", "GetDis", "SetVec", "GetReq"}
-HostOnly == {"Empty", "Peek", "SemSet", "SemMask"}   \* + Send/Ready/Recv/SemGet/SemClr, which callbacks make too
+DspOnly == {"Ack", "Stat", "GRecv", "GSend", "GSemGet", "GSemClr", "GSemSet", "GSemMask", "SetDis", "GetDis", "SetVec",
+            "GetReq"}
+Known == {"Send", "Empty", "Ready", "Recv", "Peek", "SemSet", "SemGet", "SemClr", "SemMask"} \cup DspOnly
 Want(e) == CASE e.e \in {"Recv", "Peek", "SemGet", "GRecv", "GSemGet"} -> e.r
              [] e.e = "GetReq" -> IF e.r = 16384 THEN 1 ELSE IF e.r = 0 THEN 0 ELSE 2   \* only irq 14 is ever raised
              [] OTHER -> -1
 
 \* ---- silent steps
 TMicro(t) == /\ Explainable
-             /\ todo[t] # <<>> /\ Head(todo[t]).k \in SilentKinds
-             /\ Apply(t, Head(todo[t]), Tail(todo[t]), -1)
+             /\ vTodo[t] # <<>> /\ Head(vTodo[t]).k \in SilentKinds
+             /\ Apply(t, Head(vTodo[t]), Tail(vTodo[t]), -1)
              /\ UNCHANGED <<hp, dp, tr>>
 \* top of a cycle: interrupt_pending[0].exchange(false) -> regs.ip[0]
 TExch == /\ Explainable
-         /\ todo["d"] = <<>> /\ S.latch
-         /\ S' = [S EXCEPT !.latch = FALSE]
+         /\ vTodo["d"] = <<>> /\ vS.latch
+         /\ vS' = [vS EXCEPT !.latch = FALSE]
          /\ tr' = [tr EXCEPT !.ip = TRUE]
-         /\ UNCHANGED <<todo, ret, hp, dp>>
+         /\ UNCHANGED <<vTodo, vRet, hp, dp>>
 
 \* ---- logged steps
-TEvent(t) ==
-    /\ Explainable /\ HasEv(t)
-    /\ UNCHANGED <<hp, dp>>
-    /\ LET e == Ev(t)
-           hk == IF todo[t] = <<>> THEN "none" ELSE Head(todo[t]).k
-       IN
-       CASE hk = "CbData" -> /\ e.e = "CbData" /\ e.c = Head(todo[t]).c                 \* the handler call after Send's unlock
-                             /\ S' = [S EXCEPT !.dlv["fd"] = @ + 1]
-                             /\ todo' = [todo EXCEPT ![t] = Tail(@)]
-                             /\ Advance(t) /\ UNCHANGED ret
-         [] hk = "CbSem"  -> /\ e.e = "CbSem"
-                             /\ todo' = [todo EXCEPT ![t] = Tail(@)]
-                             /\ Advance(t) /\ UNCHANGED <<S, ret>>
-         [] hk = "CbEnd" /\ e.e = "CbEnd" ->
-                             /\ todo' = [todo EXCEPT ![t] = Tail(@)]
-                             /\ Advance(t) /\ UNCHANGED <<S, ret>>
-         [] hk \in {"none", "CbEnd"} /\ e.e = "Irq" ->                                  \* interrupt entry: ip = 0, ie = 0
-                             /\ hk = "none" /\ t = "d" /\ tr.ie /\ tr.ip
-                             /\ tr' = [tr EXCEPT !.ip = FALSE, !.ie = FALSE, !.i[t] = @ + 1]
-                             /\ UNCHANGED <<S, todo, ret>>
-         [] hk \in {"none", "CbEnd"} /\ e.e = "Reti" ->
-                             /\ hk = "none" /\ t = "d" /\ ~ tr.ie
-                             /\ tr' = [tr EXCEPT !.ie = TRUE, !.i[t] = @ + 1]
-                             /\ UNCHANGED <<S, todo, ret>>
-         [] hk \in {"none", "CbEnd"} /\ e.e = "Quiesce" ->
-                             \* both threads joined: nothing latched, requested or owed; last values seen
-                             /\ hk = "none" /\ t = "h"
-                             /\ ~ S.latch /\ ~ tr.ip /\ tr.ie /\ e.ip = 0 /\ e.ie = 1
-                             /\ e.req = (IF S.req THEN 16384 ELSE 0) /\ ~ S.req
-                             /\ \A o \in Objs : S.dlv[o] = S.own[o]
-                             /\ \A o \in Objs : \A c \in Chans : S.rcv[o][c] = S.sn[o][c]
-                             /\ \A l \in Locks : S.held[l] = "none"
-                             /\ Advance(t) /\ UNCHANGED <<S, todo, ret>>
-         [] hk \in {"none", "CbEnd"} /\ e.e \in Known ->
-                             /\ (hk = "CbEnd") <=> IsCb(e)          \* re-entrant calls are made inside a callback
-                             /\ t = "h" => e.e \notin {"Ack", "Stat", "GRecv", "GSend", "GSemGet", "GSemClr", "GSemSet",
-                                                       "GSemMask", "SetDis", "GetDis", "SetVec", "GetReq"}
-                             /\ LET ops == OpsOf(t, e) IN Apply(t, Head(ops), Tail(ops) \o todo[t], Want(e))
-                             /\ Advance(t)
-         [] OTHER -> FALSE
+Pop(t) == vTodo' = [vTodo EXCEPT ![t] = Tail(@)]
+Regular(t, e, ops) == Apply(t, Head(ops), Tail(ops) \o vTodo[t], Want(e))
+Logged(t, e, hk) ==
+    CASE hk = "CbData" -> /\ e.e = "CbData" /\ e.c = Head(vTodo[t]).c                 \* the handler call after Send's unlock
+                          /\ t = "d"
+                          /\ vS' = [vS EXCEPT !.dlv["fd"] = @ + 1]
+                          /\ Pop(t) /\ Advance(t) /\ UNCHANGED vRet
+      [] hk = "CbSem"  -> /\ e.e = "CbSem"                                            \* on either thread (see the header)
+                          /\ Pop(t) /\ Advance(t) /\ UNCHANGED <<vS, vRet>>
+      [] hk = "CbEnd" /\ e.e = "CbEnd" ->
+                          /\ Pop(t) /\ Advance(t) /\ UNCHANGED <<vS, vRet>>
+      [] hk \in {"none", "CbEnd"} /\ e.e = "Irq" ->                                   \* interrupt entry: ip = 0, ie = 0
+                          /\ hk = "none" /\ t = "d" /\ tr.ie /\ tr.ip
+                          /\ tr' = [tr EXCEPT !.ip = FALSE, !.ie = FALSE, !.i[t] = @ + 1]
+                          /\ UNCHANGED <<vS, vTodo, vRet>>
+      [] hk \in {"none", "CbEnd"} /\ e.e = "Reti" ->
+                          /\ hk = "none" /\ t = "d" /\ ~ tr.ie
+                          /\ tr' = [tr EXCEPT !.ie = TRUE, !.i[t] = @ + 1]
+                          /\ UNCHANGED <<vS, vTodo, vRet>>
+      [] hk \in {"none", "CbEnd"} /\ e.e = "Quiesce" ->
+                          \* both threads joined: nothing latched, requested or owed; last values seen
+                          /\ hk = "none" /\ t = "h"
+                          /\ ~ vS.latch /\ ~ tr.ip /\ tr.ie /\ e.ip = 0 /\ e.ie = 1
+                          /\ e.req = (IF vS.req THEN 16384 ELSE 0) /\ ~ vS.req
+                          /\ \A o \in Objs : vS.dlv[o] = vS.own[o]
+                          /\ \A o \in Objs : \A c \in Chans : vS.rcv[o][c] = vS.sn[o][c]
+                          /\ \A l \in Locks : vS.held[l] = "none"
+                          /\ Advance(t) /\ UNCHANGED <<vS, vTodo, vRet>>
+      [] hk \in {"none", "CbEnd"} /\ e.e \in Known ->
+                          /\ (hk = "CbEnd") <=> IsCb(e)          \* re-entrant calls are made inside a callback
+                          /\ t = "h" => e.e \notin DspOnly
+                          /\ Regular(t, e, OpsOf(e))
+                          /\ Advance(t)
+      [] OTHER -> FALSE
+TEvent(t) == /\ Explainable /\ HasEv(t)
+             /\ UNCHANGED <<hp, dp>>
+             /\ Logged(t, Ev(t), HeadKind(t))
 
 RunDone == /\ Explainable
            /\ tr.i["h"] > Len(HostEvs) /\ tr.i["d"] > Len(ARun.d)
-           /\ todo["h"] = <<>> /\ todo["d"] = <<>>
+           /\ vTodo["h"] = <<>> /\ vTodo["d"] = <<>>
 Fresh(r) == [r |-> r, i |-> [t \in Threads |-> 1], ip |-> FALSE, ie |-> TRUE]
 StartS(r) == InitS(TRUE, IF r <= Len(Log) /\ Log[r].e = "Run" THEN Log[r].cfg.ven = 1 ELSE FALSE)
 TNextRun == /\ RunDone
             /\ TLCSet(1, IF TLCGet(1) > tr.r THEN TLCGet(1) ELSE tr.r)   \* most runs explained so far (one worker)
             /\ tr' = Fresh(tr.r + 1)
-            /\ S' = StartS(tr.r + 1)
-            /\ todo' = [t \in Threads |-> <<>>]
-            /\ ret' = [t \in Threads |-> 0]
+            /\ vS' = StartS(tr.r + 1)
+            /\ vTodo' = [t \in Threads |-> <<>>]
+            /\ vRet' = [t \in Threads |-> 0]
             /\ UNCHANGED <<hp, dp>>
 
 TraceInit == /\ TLCSet(1, 0)
              /\ tr = Fresh(1)
-             /\ S = StartS(1)
-             /\ todo = [t \in Threads |-> <<>>]
-             /\ ret = [t \in Threads |-> 0]
+             /\ vS = StartS(1)
+             /\ vTodo = [t \in Threads |-> <<>>]
+             /\ vRet = [t \in Threads |-> 0]
              /\ hp = 0 /\ dp = 0                     \* the program counters of the MC model are not used here
 TraceNext == \/ \E t \in Threads : TMicro(t) \/ TEvent(t)
              \/ TExch
@@ -168,7 +169,7 @@ TraceSpec == TraceInit /\ [][TraceNext]_tvars
 
 \* the value-order and lock-cycle properties of the property layer, on every state of every candidate
 \* explanation of the observed execution (at full width: 3 channels, 16 semaphore bits, 16-bit values)
-ObservedOK == ValuesOK /\ OwedSafe /\ (\A t \in Threads : Blocked(t) => S.held[Need(t)] # t)
+ObservedOK == ValuesOK /\ OwedSafe /\ (\A t \in Threads : Blocked(t) => vS.held[Need(t)] # t)
 
 TraceAccepted ==
     /\ PrintT(<<"TRACE_MATCHED", TLCGet(1), Len(Log)>>)
